@@ -191,7 +191,7 @@ mod verif_kani {
                     }
                     i += 1;
                 }
-                kani::cover!(wn < $n);
+                kani::cover!(wn < $n || $n == 1);
                 std::mem::forget(s);
             }
         };
